@@ -238,6 +238,23 @@ def _t1(ctx: Context) -> None:
     def cattr(name):
         return ("attr", ("param", char), name)
 
+    # the conversion of the caller's value is exact: Decimal(<the value itself>) - no detour through a binary double
+    convs = []
+    for n in cfg.nodes:
+        for c in ctx.calls(n):
+            if ctx.resolve_name(f, c.func) == "decimal.Decimal" and c.args:
+                t = strip_sites(T.of(cfg, n, c.args[0]))
+                if contains(t, lambda s: s == ("param", val)) and not contains(t, lambda s: s[0] == "call" and s[1] == DEC):
+                    convs.append((n, t))
+    if not convs:
+        ck.unknown("C14.T1", "check_convert_value: the Decimal conversion of the input was not found", f.loc())
+    for n, t in convs:
+        exact = t == ("param", val) or t == ("call", ("glob", "str"), (("param", val),), ())
+        lossy = contains(t, lambda s: s[0] == "call" and s[1] in (("glob", "float"), ("glob", "int"), ("glob", "round")))
+        ck.check("C14.T1", exact, "the input is converted with Decimal(<input>) itself (exact for integers of any magnitude)", f"{ctx.fkey(f)}:inexact-conversion",
+                 f"check_convert_value converts the input through {show(t, 100)}"
+                 + (": a binary double keeps only 53 significant bits, integer inputs above 2^53 (uint64) change value before clamping/rounding" if lossy else ""),
+                 ctx.loc(f, n))
     # the rounding statement: X = offset + to_integral((v - offset) / step) * step
     rounding = None
     for n in cfg.nodes:
